@@ -235,3 +235,30 @@ func VC12Concurrent() {
 	vrt.Assert("flush-goroutine-exited", vrt.LiveGoroutines() == 0)
 	vrt.Cover("done")
 }
+
+//verif: prop=C12 bounds="Size 4; one buffered write (1..3 bytes), optionally a flush tick pending, then Stop from two goroutines at once and a third Stop afterwards: every Stop returns nil without panicking, the write has reached the sink exactly once and the sink was synced, the flush goroutine has exited; every interleaving of synchronisation operations (preemption bound 2); race monitor on"
+func VC12Stops() {
+	sink := &vSerialSink{}
+	clock := &vTickClock{ch: make(chan time.Time, 1)}
+	b := &BufferedWriteSyncer{WS: sink, Size: 4, Clock: clock, FlushInterval: time.Second}
+	first := vBytesIn("a", vrt.IntRange("la", 1, 3), 'a')
+	n, err := b.Write(first)
+	vrt.Assert("write-accepts-all", n == len(first) && err == nil)
+	if vrt.Choice("tick", 2) == 1 {
+		clock.ch <- time.Unix(1, 0)
+	}
+	var wg sync.WaitGroup
+	wg.Add(2)
+	for g := 0; g < 2; g++ {
+		go func() {
+			defer wg.Done()
+			vrt.Assert("stop-nil", b.Stop() == nil)
+		}()
+	}
+	wg.Wait()
+	vrt.Assert("stop-nil", b.Stop() == nil)
+	vrt.Assert("stop:everything-delivered", string(sink.stream) == string(first))
+	vrt.Assert("stop:sink-synced-last", sink.syncs > 0)
+	vrt.Assert("flush-goroutine-exited", vrt.LiveGoroutines() == 0)
+	vrt.Cover("done")
+}
